@@ -128,7 +128,19 @@ def rule_bkt_dtype(ctx: Ctx) -> None:
     for m in ('_get_allreduce_bucket', '_new_allreduce_bucket', 'group_ranks'):
         uses += [n for n in p.nodes(p.get_func(f'{TDC}.{m}')) if isinstance(n, ast.Attribute) and n.attr == 'dtype']
     b = p.get_func(f'{BKT}.add_tensor')
-    uses += [n for n in p.nodes(b) if isinstance(n, ast.Attribute) and n.attr == 'dtype']
+    # the bucket holds the caller's tensor itself: a converted copy changes the dtype (and values) the future resolves to
+    tp = [a for a in b.params if a != 'self'][0]
+    apps = [n for n in p.nodes(b) if isinstance(n, ast.Call) and isinstance(n.func, ast.Attribute) and n.func.attr in ('append', 'extend', 'insert')
+            and norm(n.func.value) == 'self._tensors']
+    rebound = [n for n in p.nodes(b) if isinstance(n, (ast.Assign, ast.AugAssign, ast.AnnAssign))
+               and any(isinstance(x, ast.Name) and x.id == tp and isinstance(x.ctx, ast.Store) for t in (n.targets if isinstance(n, ast.Assign) else [n.target]) for x in ast.walk(t))]
+    keep = ('contiguous', 'detach', 'view', 'reshape', 'flatten', 'clone')     # same dtype, same values
+    rebound = [n for n in rebound if not (isinstance(n, ast.Assign) and isinstance(n.value, ast.Call) and isinstance(n.value.func, ast.Attribute)
+                                          and n.value.func.attr in keep and norm(n.value.func.value) == tp)]
+    ok_same = len(apps) == 1 and len(apps[0].args) == 1 and norm(apps[0].args[0]) == tp and not rebound
+    ctx.check(ok_same, 'BKT-DTYPE', b, f'add_tensor stores the tensor it was given ({tp})', 'add_tensor stores',
+              f'add_tensor stores {[norm(a) for a in apps]} with {tp} re-bound at {[norm(r)[:60] for r in rebound]}: the future resolves to the fused copy of what is stored, '
+              'so a converted tensor changes dtype and rounding relative to the unbucketed allreduce', rebound[0] if rebound else b.node)
     ctx.check(bool(uses), 'BKT-DTYPE', f, 'bucket choice depends on tensor.dtype', 'allreduce_bucketed dtype',
               'neither the bucket key nor any guard depends on tensor.dtype: flatten() of a mixed-dtype bucket promotes, so a float16 tensor\'s future resolves to float32 '
               '(differs from the unbucketed allreduce)', f.node)
